@@ -19,6 +19,9 @@ MUTS = [
  ('M8', 'C09', 'src/image/image_raw.rs', '(width as usize * bits_per_pixel + 7) / 8', '(width as usize * bits_per_pixel + 8) / 8', 'break', 'bytes_per_row: literal 7 -> 8'),
  ('M9', 'C07', 'src/primitives/line/intersection_params.rs', '(numerator + denominator / 2)\n                .div_euclid(denominator)', '((numerator + denominator / 2)\n                / denominator)', 'break', 'round_div closure: div_euclid -> `/` (Z.div vs Z.quot: differs for negative numerators)'),
  ('M10', 'C19', 'src/primitives/triangle/mod.rs', 'if p1.y < p2.y || (p1.y == p2.y && p1.x < p2.x) {', 'if p1.y < p2.y || (p1.y == p2.y && p1.x <= p2.x) {', 'break', 'sort_two_yx: `<` -> `<=` (EQUIVALENT up to the order of two equal points)'),
+ ('M11', 'C05', 'src/primitives/rounded_rectangle/corner_radii.rs', 'if radii > side\n', 'if radii >= side\n', 'break', 'CornerRadii::confine: `>` -> `>=` inside the unrolled loop'),
+ ('M12', 'C07', 'src/primitives/common/scanline.rs', '} else if x >= self.x.end {\n            self.x.end = x + 1;', '} else if x >= self.x.end {\n            self.x.end = x;', 'break', 'Scanline::extend: off-by-one in the new end'),
+ ('F1', 'C19', 'src/primitives/triangle/mod.rs', 'let (y1, y2) = sort_two_yx(p1, p2);\n        let (y1, y3) = sort_two_yx(p3, y1);', 'let (mut y1, y2) = sort_two_yx(p1, p2);\n        while y1.y > 1000 { y1.y -= 1; }\n        let (y1, y3) = sort_two_yx(p3, y1);', 'break', 'sorted_yx: a `while` loop is introduced (outside the subset: translator must fail closed)'),
  ('P1', 'C16', 'core/src/primitives/rectangle/mod.rs', 'let left = min(corner_1.x, corner_2.x);\n        let top = min(corner_1.y, corner_2.y);\n\n        Rectangle {\n            top_left: Point::new(left, top),', 'let top_edge = min(corner_1.y, corner_2.y);\n        let left_edge = min(corner_1.x, corner_2.x);\n\n        Rectangle {\n            top_left: Point::new(left_edge, top_edge),', 'preserve', 'with_corners: locals renamed and the two independent lets reordered'),
  ('P2', 'C05', 'src/primitives/ellipse/mod.rs', 'let a = (width as u64).pow(2);\n        let b = (height as u64).pow(2);', 'let b = (height as u64).pow(2);\n        let a = (width as u64).pow(2);', 'preserve', 'EllipseContains::new: independent lets reordered'),
  ('P3', 'C07', 'src/primitives/common/linear_equation.rs', 'let normal_vector = line.delta().rotate_90();\n        let origin_distance = line.start.dot_product(normal_vector);\n\n        Self {\n            normal_vector,\n            origin_distance,\n        }', 'let n = line.delta().rotate_90();\n        let d = line.start.dot_product(n);\n\n        Self {\n            normal_vector: n,\n            origin_distance: d,\n        }', 'preserve', 'LinearEquation::from_line: locals renamed'),
@@ -78,7 +81,7 @@ def main():
         changed = re.findall(r'Gen/(\w+)\.v written', o)
         trc = rc
         sh('sh tools/gen_coqproject.sh')
-        rc, o = sh('timeout 1500 make -k -j4 -C coq $(cd coq && ls Properties/*_src.v | sed s/\\.v$/.vo/)')
+        rc, o = sh('timeout 1500 make -k -j4 -C coq $(cd coq && ls Properties/*_src*.v | sed s/\\.v$/.vo/)')
         lemma = first_failing_lemma(o) if rc != 0 else None
         t0 = time.time()
         rc, o = sh('timeout 3000 ./check %s' % prop, env)
@@ -98,7 +101,7 @@ def main():
         print('| ' + ' | '.join(rows[-1]) + ' |', flush=True)
         sh('git -C /repo worktree remove --force %s; git -C /repo worktree prune' % S)
     sh('sh translate/r2c/run.sh')   # back to /repo
-    sh('timeout 1500 make -j4 -C coq $(cd coq && ls Properties/*_src.v | sed s/\\.v$/.vo/)')
+    sh('timeout 1500 make -j4 -C coq $(cd coq && ls Properties/*_src*.v | sed s/\\.v$/.vo/)')
 
 
 main()
